@@ -12,6 +12,8 @@ use std::collections::HashSet;
 use std::sync::{Arc, Condvar, Mutex};
 use std::time::{Duration, Instant};
 
+static WATCHDOGS: std::sync::atomic::AtomicU32 = std::sync::atomic::AtomicU32::new(0);
+
 #[derive(Clone, Copy, Debug, PartialEq, Eq)]
 enum Turn {
     Scheduler,
@@ -67,6 +69,9 @@ pub enum Strategy {
     /// non-preemptive in index order, except: `victim` is held at its `at`-th scheduling point
     /// while the others run for `len` steps (or to completion), then resumes
     Delay { victim: usize, at: u32, len: u32 },
+    /// follow the given thread choices step by step; afterwards continue non-preemptively
+    /// (keep the running thread while it is runnable, else the lowest-index runnable one)
+    Script { choices: Vec<u8> },
 }
 
 impl Strategy {
@@ -75,6 +80,7 @@ impl Strategy {
             Strategy::Rw => "rw".into(),
             Strategy::Pct { depth, est_len } => format!("pct(d={},n={})", depth, est_len),
             Strategy::Delay { victim, at, len } => format!("delay(t={},k={},m={})", victim, at, len),
+            Strategy::Script { choices } => format!("script({})", choices.iter().map(|c| c.to_string()).collect::<Vec<_>>().join("")),
         }
     }
 }
@@ -125,6 +131,16 @@ impl Chooser {
                 }
                 *runnable.iter().max_by_key(|w| self.prio[**w]).unwrap()
             }
+            Strategy::Script { choices } => {
+                let i = (step - 1) as usize;
+                match choices.get(i) {
+                    Some(c) if runnable.contains(&(*c as usize)) => *c as usize,
+                    _ => match last {
+                        Some(l) if runnable.contains(&l) => l,
+                        _ => runnable[0],
+                    },
+                }
+            }
             Strategy::Delay { victim, at, len } => {
                 let v = *victim;
                 let others: Vec<usize> = runnable.iter().copied().filter(|w| *w != v).collect();
@@ -163,8 +179,11 @@ pub struct ExecResult {
     pub trace_hash: u64,
     /// (thread, op, line) of every granted step
     pub trace: Vec<(u8, Op, u32)>,
+    /// bit mask of the runnable threads at every granted step (same index as `trace`)
+    pub runnable: Vec<u8>,
     pub switch_pairs: HashSet<(Op, u32, Op, u32)>,
     pub sites: HashSet<(Op, u32)>,
+    pub site_files: std::collections::HashMap<(Op, u32), &'static str>,
     pub events: Vec<Vec<Ev>>,
     /// panics other than the budget overrun, per worker
     pub panics: Vec<Option<String>>,
@@ -253,6 +272,22 @@ pub fn run_exec(
 ) -> ExecResult {
     hook::install();
     let n = bodies.len();
+    // after a few watchdog firings (a lock held across a scheduling point deadlocks the baton
+    // protocol) nothing more is scheduled: the rest of the run is inconclusive, not hours long
+    if WATCHDOGS.load(std::sync::atomic::Ordering::Relaxed) >= 3 {
+        return ExecResult {
+            verdict: Verdict::Watchdog,
+            steps: 0,
+            trace_hash: 0,
+            trace: Vec::new(),
+            runnable: Vec::new(),
+            switch_pairs: HashSet::new(),
+            sites: HashSet::new(),
+            site_files: Default::default(),
+            events: vec![Vec::new(); n],
+            panics: vec![None; n],
+        };
+    }
     let shared = Arc::new(Shared {
         m: Mutex::new(State {
             turn: Turn::Scheduler,
@@ -271,8 +306,10 @@ pub fn run_exec(
         steps: 0,
         trace_hash: 0xcbf2_9ce4_8422_2325,
         trace: Vec::new(),
+        runnable: Vec::new(),
         switch_pairs: HashSet::new(),
         sites: HashSet::new(),
+        site_files: Default::default(),
         events: Vec::new(),
         panics: vec![None; n],
     };
@@ -328,7 +365,7 @@ pub fn run_exec(
         // scheduler loop
         let mut last: Option<usize> = None;
         let mut last_pending_of: Vec<Option<PSite>> = vec![None; n];
-        let deadline = Instant::now() + Duration::from_secs(60);
+        let deadline = Instant::now() + Duration::from_secs(20);
         loop {
             let mut st = shared.m.lock().unwrap();
             // quiescent = scheduler's turn and every live worker is parked
@@ -340,6 +377,7 @@ pub fn run_exec(
                 }
                 let now = Instant::now();
                 if now >= deadline {
+                    WATCHDOGS.fetch_add(1, std::sync::atomic::Ordering::Relaxed);
                     res.verdict = Verdict::Watchdog;
                     st.abort = true;
                     shared.cv.notify_all();
@@ -384,8 +422,10 @@ pub fn run_exec(
             res.trace_hash = fnv_mix(res.trace_hash, ((w as u64) << 48) ^ ((site.op as u64) << 32) ^ site.line as u64);
             if res.trace.len() < 4096 {
                 res.trace.push((w as u8, site.op, site.line));
+                res.runnable.push(runnable.iter().fold(0u8, |m, t| m | (1 << *t)));
             }
             res.sites.insert((site.op, site.line));
+            res.site_files.entry((site.op, site.line)).or_insert(site.file);
             if let Some(l) = last {
                 if l != w {
                     if let Some(ps) = st.pending[l] {
